@@ -67,9 +67,10 @@ def chord(p, q):
 # Mesh
 # ----------------------------------------------------------------------------
 class Mesh:
-    def __init__(self, lon, lat, faces, name="", closed=False):
-        self.lon = wrap180(np.asarray(lon, dtype=np.float64))
-        # keep exact +180 -> -180 convention out of the model: compare by unit vector
+    def __init__(self, lon, lat, faces, name="", closed=False, wrap=True):
+        lon = np.asarray(lon, dtype=np.float64)
+        # generators wrap into [-180, 180); a model read back from a grid keeps the stored values
+        self.lon = wrap180(lon) if wrap else lon.copy()
         self.lat = np.asarray(lat, dtype=np.float64)
         self.faces = [list(map(int, f)) for f in faces]
         self.name = name
@@ -453,7 +454,7 @@ def mesh_from_arrays(lon, lat, conn, fill=FILL):
     faces = []
     for row in np.asarray(conn):
         faces.append([int(n) for n in row if n != fill])
-    return Mesh(np.asarray(lon, dtype=np.float64), np.asarray(lat, dtype=np.float64), faces, "file")
+    return Mesh(np.asarray(lon, dtype=np.float64), np.asarray(lat, dtype=np.float64), faces, "file", wrap=False)
 
 
 # ----------------------------------------------------------------------------
